@@ -90,6 +90,20 @@ _W_ELSE = ([_cmd('hold', tasks=['1/b']), _L] + _job('1/a') + [_L, _L, _trig(['1/
            _rm(['1/a'], flow=['1']), _L, _L])
 
 
+def _run_retry(cases, workers):
+    """run_workers; a case whose scheduler did not come up (server thread start timed out on an overloaded
+    machine: BrokenBarrierError) is run again, up to twice, on few workers"""
+    res = run_workers(cases, workers)
+    for _ in range(2):
+        bad = [k for k, r in enumerate(res) if 'error' in r and 'BrokenBarrierError' in r['error']]
+        if not bad:
+            break
+        again = run_workers([cases[k] for k in bad], min(4, len(bad)))
+        for k, r in zip(bad, again):
+            res[k] = r
+    return res
+
+
 def _case(cid, flow, ops):
     return {'id': cid, 'flow': flow, 'seed': 0, 'opts': {}, 'policy': {'obs_db': True}, 'ops': ops, 'kind': 'cmdrm'}
 
@@ -140,7 +154,7 @@ class C30(SchedProp):
             # (C28's flag; the model carries the group trigger) are all prerequisites on a live parent forced?
             _case('c30-probe-trig', _AB, [_L] + _job('1/a', msgs=('started',)) + [_L, _trig(['1/a', '1/b'])]),
         ]
-        raws = run_workers(probes, 3)
+        raws = _run_retry(probes, 3)
         for raw in raws:
             if 'error' in raw:
                 raise Infra(f'C30 probe run failed: {raw["error"][-400:]}')
@@ -167,6 +181,9 @@ class C30(SchedProp):
 
     def corpus(self):
         return [_case('c30-' + k, v[0], v[1]) for k, v in _CORPUS.items()]
+
+    def impl_batch(self, inputs):
+        return _run_retry(inputs, self.workers)
 
     def driver_input(self, inp, raw):
         d = super().driver_input(inp, raw)
